@@ -558,7 +558,13 @@ where
         // We cannot use result of `peek()` directly because of borrow checker
         let _ = self.map.de.peek()?;
         match self.map.de.last_peeked() {
-            DeEvent::Text(t) if t.is_empty() => visitor.visit_none(),
+            DeEvent::Text(t) if t.is_empty() => {
+                // The empty text (it can be produced only by an empty CDATA section)
+                // is the representation of `None`, so it must be consumed. Otherwise
+                // the map would report the same `$text` / `$value` key again and again
+                self.map.de.next()?;
+                visitor.visit_none()
+            }
             DeEvent::Start(start) if self.map.should_skip_subtree(start) => {
                 self.map.de.skip_next_tree()?;
                 visitor.visit_none()
